@@ -224,3 +224,12 @@ func jU64(v interface{}) uint64 {
 }
 func jBool(v interface{}) bool { b, _ := v.(bool); return b }
 func jStr(v interface{}) string { s, _ := v.(string); return s }
+
+// reJSON converts a generic decoded JSON value into a typed one.
+func reJSON(v interface{}, out interface{}) error {
+	b, err := json.Marshal(v)
+	if err != nil {
+		return err
+	}
+	return json.Unmarshal(b, out)
+}
